@@ -1,41 +1,44 @@
 (* Executable slot-level model of frg::vector (include/frg/vector.hpp) as it is in /repo.
-   A script works on registers (container variables) 0..2; every operation yields its result and the
-   lifetime/allocation events it performs.  Definitions only (proofs: VectorProofs.v). *)
+   A script works on registers (container variables) 0..2, each constructed on its own allocator instance;
+   every operation yields its result and the lifetime/allocation events it performs.
+   Definitions only (proofs: VectorProofs.v). *)
 From Coq Require Import List NArith Arith Bool.
 From FV Require Import Common.EventLog Seq.SlotModel.
 Import ListNotations.
 
-(* _elements (block id, 0 = nullptr) with the block's slots, _size, _capacity *)
+(* _elements (block name, 0 = nullptr) with the block's slots, _size, _capacity *)
 Record vec := mk_vec { v_blk : nat; v_cells : buf; v_size : nat; v_cap : nat }.
 
 (* vector(Allocator) *)
 Definition vec_empty : vec := mk_vec 0 [] 0 0.
 
-Record vst := mk_vst { regs : nat -> vec; nextb : nat }.
-Definition vst0 : vst := mk_vst (fun _ => vec_empty) 1.
+(* regs r = the vector object, als r = the allocator instance its _allocator member designates *)
+Record vst := mk_vst { regs : nat -> vec; als : nat -> nat; nextb : nat }.
+Definition vst0 : vst := mk_vst (fun _ => vec_empty) (fun r => Nat.min r (NINST - 1)) 1.
 
 Definition set_reg {A} (f : nat -> A) (r : nat) (x : A) : nat -> A :=
   fun k => if Nat.eqb k r then x else f k.
 
-Section WithElemSize.
-Variable esz : N.      (* sizeof(T) *)
+Section WithElem.
+Variable esz : N.                  (* sizeof(T) *)
+Variable veq : V -> V -> bool.     (* T's operator== *)
 
-Definition free_ev (b : nat) : list ev := if Nat.eqb b 0 then [] else [EFree b].
-
-(* _ensure_capacity(c), vector.hpp:207-223.  nb = id the allocator hands out next. *)
-Definition ensure_capacity (nb c : nat) (v : vec) : res (vec * nat * list ev) :=
+(* _ensure_capacity(c), vector.hpp:207-223.  al = the allocator instance of this vector, nb = number of the next
+   allocation of the script. *)
+Definition ensure_capacity (al nb c : nat) (v : vec) : res (vec * nat * list ev) :=
   if Nat.leb c (v_cap v) then Ok (v, nb, []) else
   let ncap := 2 * c in
+  let nblk := enc al nb in
   (* vector.hpp:214  for(size_t i = 0; i < _size; i++) *)
-  bind (xfer_loop (v_size v) 0 (heap_nm (v_blk v)) (heap_nm nb) (v_cells v) (repeat None ncap)) (fun '(d, e1) =>
+  bind (xfer_loop (v_size v) 0 (heap_nm (v_blk v)) (heap_nm nblk) (v_cells v) (repeat None ncap)) (fun '(d, e1) =>
   bind (destroy_loop (v_size v) 0 (heap_nm (v_blk v)) (v_cells v)) (fun '(_, e2) =>
-  Ok (mk_vec nb d (v_size v) ncap, S nb,
-      EAlloc nb (esz * N.of_nat ncap) :: e1 ++ e2 ++ free_ev (v_blk v)))).
+  Ok (mk_vec nblk d (v_size v) ncap, S nb,
+      EAlloc nblk (esz * N.of_nat ncap) :: e1 ++ e2 ++ free_ev al (v_blk v)))).
 
 (* push(const T&) / push(T&&) / emplace_back(args): identical but for the constructor called; the
    argument lives outside the container *)
-Definition push (nb : nat) (x : V) (v : vec) : res (vec * nat * list ev) :=
-  bind (ensure_capacity nb (v_size v + 1) v) (fun '(v1, nb1, e1) =>
+Definition push (al nb : nat) (x : V) (v : vec) : res (vec * nat * list ev) :=
+  bind (ensure_capacity al nb (v_size v + 1) v) (fun '(v1, nb1, e1) =>
   bind (construct (v_cells v1) (v_size v1) x) (fun c =>
   Ok (mk_vec (v_blk v1) c (S (v_size v1)) (v_cap v1), nb1,
       e1 ++ [EConstruct (v_blk v1, v_size v1)]))).
@@ -51,8 +54,8 @@ Definition pop (v : vec) : res (vec * V * list ev) :=
   end.
 
 (* resize(new_size, args...) *)
-Definition resize (nb n : nat) (x : V) (v : vec) : res (vec * nat * list ev) :=
-  bind (ensure_capacity nb n v) (fun '(v1, nb1, e1) =>
+Definition resize (al nb n : nat) (x : V) (v : vec) : res (vec * nat * list ev) :=
+  bind (ensure_capacity al nb n v) (fun '(v1, nb1, e1) =>
   bind (if Nat.ltb n (v_size v1)
         then destroy_loop (v_size v1 - n) n (heap_nm (v_blk v1)) (v_cells v1)
         else fill_loop (n - v_size v1) (v_size v1) (heap_nm (v_blk v1)) (v_cells v1) x) (fun '(c, e2) =>
@@ -63,14 +66,14 @@ Definition clear (v : vec) : res (vec * list ev) :=
   bind (destroy_loop (v_size v) 0 (heap_nm (v_blk v)) (v_cells v)) (fun '(c, e) =>
   Ok (mk_vec (v_blk v) c 0 (v_cap v), e)).
 
-(* ~vector() *)
-Definition destruct (v : vec) : res (list ev) :=
+(* ~vector(): _allocator.free(_elements) through this vector's allocator instance *)
+Definition destruct (al : nat) (v : vec) : res (list ev) :=
   bind (destroy_loop (v_size v) 0 (heap_nm (v_blk v)) (v_cells v)) (fun '(_, e) =>
-  Ok (e ++ free_ev (v_blk v))).
+  Ok (e ++ free_ev al (v_blk v))).
 
-(* vector(const vector &other) *)
-Definition copy_ctor (nb : nat) (o : vec) : res (vec * nat * list ev) :=
-  bind (ensure_capacity nb (v_size o) vec_empty) (fun '(v1, nb1, e1) =>
+(* vector(const vector &other) : vector(other._allocator); al = other's allocator instance *)
+Definition copy_ctor (al nb : nat) (o : vec) : res (vec * nat * list ev) :=
+  bind (ensure_capacity al nb (v_size o) vec_empty) (fun '(v1, nb1, e1) =>
   bind (xfer_loop (v_size o) 0 (heap_nm (v_blk o)) (heap_nm (v_blk v1)) (v_cells o) (v_cells v1)) (fun '(c, e2) =>
   Ok (mk_vec (v_blk v1) c (v_size o) (v_cap v1), nb1, e1 ++ e2))).
 
@@ -80,10 +83,10 @@ Definition back (v : vec) : res V :=
   match v_size v with O => UB | S n => rd (v_cells v) n end.
 Definition index (v : vec) (i : nat) : res V := rd (v_cells v) i.
 
-(* this->operator==(other) *)
+(* this->operator==(other): sizes, then other[i] != _elements[i], i.e. !(other[i] == _elements[i]) *)
 Definition equal (this other : vec) : res (bool * list ev) :=
   if negb (Nat.eqb (v_size other) (v_size this)) then Ok (false, []) else
-  eq_loop (v_size this) 0 (heap_nm (v_blk other)) (heap_nm (v_blk this)) (v_cells other) (v_cells this).
+  eq_loop veq (v_size this) 0 (heap_nm (v_blk other)) (heap_nm (v_blk this)) (v_cells other) (v_cells this).
 
 (* size(), empty(), begin()..end() *)
 Definition size (v : vec) : nat := v_size v.
@@ -103,44 +106,48 @@ Inductive vop :=
 | VMoveCtor (r s : nat)      (* r.~vector(); new (&r) vector(std::move(s))  (r <> s) *)
 | VSwap (r s : nat).
 
+(* The allocator travels with the buffer: swap() exchanges _allocator, copy and move construction start from
+   vector(other._allocator). *)
 Definition vstep (st : vst) (o : vop) : res (vst * out * list ev) :=
   let rg := regs st in
+  let al := als st in
   match o with
   | VPush r x | VPushMove r x | VEmplace r x =>
-    bind (push (nextb st) x (rg r)) (fun '(v, nb, e) => Ok (mk_vst (set_reg rg r v) nb, OUnit, e))
+    bind (push (al r) (nextb st) x (rg r)) (fun '(v, nb, e) => Ok (mk_vst (set_reg rg r v) al nb, OUnit, e))
   | VPop r =>
-    bind (pop (rg r)) (fun '(v, x, e) => Ok (mk_vst (set_reg rg r v) (nextb st), OVal x, e))
+    bind (pop (rg r)) (fun '(v, x, e) => Ok (mk_vst (set_reg rg r v) al (nextb st), OVal x, e))
   | VResize r n x =>
-    bind (resize (nextb st) n x (rg r)) (fun '(v, nb, e) => Ok (mk_vst (set_reg rg r v) nb, OUnit, e))
+    bind (resize (al r) (nextb st) n x (rg r)) (fun '(v, nb, e) => Ok (mk_vst (set_reg rg r v) al nb, OUnit, e))
   | VClear r =>
-    bind (clear (rg r)) (fun '(v, e) => Ok (mk_vst (set_reg rg r v) (nextb st), OUnit, e))
+    bind (clear (rg r)) (fun '(v, e) => Ok (mk_vst (set_reg rg r v) al (nextb st), OUnit, e))
   | VFront r => bind (front (rg r)) (fun x => Ok (st, OVal x, []))
   | VBack r => bind (back (rg r)) (fun x => Ok (st, OVal x, []))
   | VIndex r i => bind (index (rg r) i) (fun x => Ok (st, OVal x, []))
   | VEq r s => bind (equal (rg r) (rg s)) (fun '(b, e) => Ok (st, OBool b, e))
   | VAssign r s =>
-    (* the by-value parameter is copy-constructed from s, swapped with *this, destroyed *)
-    bind (copy_ctor (nextb st) (rg s)) (fun '(other, nb, e1) =>
-    bind (destruct (rg r)) (fun e2 =>
-    Ok (mk_vst (set_reg rg r other) nb, OUnit, e1 ++ e2)))
+    (* the by-value parameter is copy-constructed from s (on s's allocator), swapped with *this, and destroyed
+       holding what *this held, its allocator included *)
+    bind (copy_ctor (al s) (nextb st) (rg s)) (fun '(other, nb, e1) =>
+    bind (destruct (al r) (rg r)) (fun e2 =>
+    Ok (mk_vst (set_reg rg r other) (set_reg al r (al s)) nb, OUnit, e1 ++ e2)))
   | VMoveAssign r s =>
-    (* parameter = vector(std::move(s)): empty vector swapped with s; then swap with *this *)
+    (* parameter = vector(std::move(s)): empty vector on s's allocator swapped with s; then swap with *this *)
     let other := rg s in
     let rg1 := set_reg rg s vec_empty in
     let mine := rg1 r in
-    bind (destruct mine) (fun e =>
-    Ok (mk_vst (set_reg rg1 r other) (nextb st), OUnit, e))
+    bind (destruct (al r) mine) (fun e =>
+    Ok (mk_vst (set_reg rg1 r other) (set_reg al r (al s)) (nextb st), OUnit, e))
   | VCopyCtor r s =>
     if Nat.eqb r s then Ok (st, OUnit, []) else
-    bind (destruct (rg r)) (fun e1 =>
-    bind (copy_ctor (nextb st) (rg s)) (fun '(v, nb, e2) =>
-    Ok (mk_vst (set_reg rg r v) nb, OUnit, e1 ++ e2)))
+    bind (destruct (al r) (rg r)) (fun e1 =>
+    bind (copy_ctor (al s) (nextb st) (rg s)) (fun '(v, nb, e2) =>
+    Ok (mk_vst (set_reg rg r v) (set_reg al r (al s)) nb, OUnit, e1 ++ e2)))
   | VMoveCtor r s =>
     if Nat.eqb r s then Ok (st, OUnit, []) else
-    bind (destruct (rg r)) (fun e1 =>
-    Ok (mk_vst (set_reg (set_reg rg r (rg s)) s vec_empty) (nextb st), OUnit, e1))
+    bind (destruct (al r) (rg r)) (fun e1 =>
+    Ok (mk_vst (set_reg (set_reg rg r (rg s)) s vec_empty) (set_reg al r (al s)) (nextb st), OUnit, e1))
   | VSwap r s =>
-    Ok (mk_vst (set_reg (set_reg rg r (rg s)) s (rg r)) (nextb st), OUnit, [])
+    Ok (mk_vst (set_reg (set_reg rg r (rg s)) s (rg r)) (set_reg (set_reg al r (al s)) s (al r)) (nextb st), OUnit, [])
   end.
 
 (* run a script; stops at the first AssertStop/UB *)
@@ -154,11 +161,11 @@ Fixpoint vrun (st : vst) (ops : list vop) : res (vst * list out * list ev) :=
 
 (* the owners' destructors at the end of a script: registers 0, 1, 2 *)
 Definition nregs : nat := 3.
-Fixpoint destruct_regs (rg : nat -> vec) (k n : nat) : res (list ev) :=
+Fixpoint destruct_regs (rg : nat -> vec) (al : nat -> nat) (k n : nat) : res (list ev) :=
   match n with
   | O => Ok []
-  | S m => bind (destruct (rg k)) (fun e1 => bind (destruct_regs rg (S k) m) (fun e2 => Ok (e1 ++ e2)))
+  | S m => bind (destruct (al k) (rg k)) (fun e1 => bind (destruct_regs rg al (S k) m) (fun e2 => Ok (e1 ++ e2)))
   end.
-Definition vfinish (st : vst) : res (list ev) := destruct_regs (regs st) 0 nregs.
+Definition vfinish (st : vst) : res (list ev) := destruct_regs (regs st) (als st) 0 nregs.
 
-End WithElemSize.
+End WithElem.
